@@ -115,6 +115,35 @@ pub fn run_reader(file: &[u8], cuts: &[usize], opts: &[bool; 5], transform: png:
     }
 }
 
+/// `read_info` + first frame + `finish` under a small limit; canonical outcome only
+pub fn run_reader_limited(file: &[u8], cuts: &[usize], limit: usize) -> String {
+    let file = file.to_vec();
+    let cuts = cuts.to_vec();
+    match guarded(move || {
+        let rd = PieceReader::new(file, cuts);
+        let mut dec = png::Decoder::new_with_limits(rd, png::Limits { bytes: limit });
+        let _ = &mut dec;
+        let mut reader = match dec.read_info() {
+            Ok(r) => r,
+            Err(e) => return format!("read_info:{}", err_class(&e)),
+        };
+        let size = reader.output_buffer_size();
+        if size > (1 << 26) {
+            return "too-large".to_string();
+        }
+        let mut buf = vec![0u8; size];
+        let f = match reader.next_frame(&mut buf) {
+            Ok(oi) => format!("ok({:016x})", fnv64(&buf[..oi.buffer_size()])),
+            Err(e) => format!("err({})", err_class(&e)),
+        };
+        let fin = if f.starts_with("ok") { match reader.finish() { Ok(()) => "ok".to_string(), Err(e) => err_class(&e) } } else { "skipped".to_string() };
+        format!("{} fin:{} {}", f, fin, info_canon(reader.info()).len())
+    }) {
+        Ok(s) => s,
+        Err(p) => format!("PANIC {}", p),
+    }
+}
+
 /// offsets of every 4-byte field boundary (length/type/CRC/sequence number) of a well-framed file
 pub fn field_offsets(file: &[u8]) -> Vec<usize> {
     let mut v = vec![4, 8];
@@ -266,7 +295,7 @@ pub fn same_modulo_error_detail(model: &str, imp: &str) -> bool {
 }
 
 fn trunc(s: &str) -> String {
-    if s.len() > 400 { format!("{}…{}", &s[..200], &s[s.len() - 180..]) } else { s.to_string() }
+    crate::util::shorten(s, 200, 180)
 }
 
 pub fn run(ctx: &mut Ctx) {
@@ -278,6 +307,55 @@ pub fn run(ctx: &mut Ctx) {
     let files = corpus::mixed_files(&mut rng, ctx.n(60, 400), ctx.n(40, 300), ctx.n(120, 1416));
     let lines: Vec<String> = files.iter().map(|f| format!("frm run {} max {} -", opts_string(&DEFAULT_OPTS), hex(&f.bytes))).collect();
     let answers = model::ask(&lines);
+    // large files: matches at the maximum deflate distance across window compactions; chunks beyond the 32 KiB buffer
+    let mut big: Vec<corpus::TestFile> = vec![];
+    {
+        let mut r = rng.fork(4242);
+        let rows8: Vec<Vec<u8>> = (0..8).map(|_| r.bytes(4095)).collect();
+        let h = 70u32;
+        let img = crate::refpng::Img { color: 0, depth: 8, w: 4095, h, pixels: (0..h as usize).flat_map(|y| rows8[y % 8].clone()).collect() };
+        let (raw, _) = crate::refpng::scanlines(&img, false, &crate::refpng::Filters::Uniform(0), &mut r);
+        let z = crate::refpng::fixed_huffman_zlib(&raw, 32768, 258);
+        let cs = vec![crate::refpng::ihdr(4095, h, 8, 0, 0), crate::refpng::RawChunk::new(b"IDAT", z), crate::refpng::RawChunk::new(b"IEND", vec![])];
+        big.push(corpus::TestFile { bytes: crate::refpng::serialize(&cs), source: "window-boundary".into(), model_domain: false });
+        for len in [32768usize, 40_000, 70_000] {
+            let small = crate::refpng::zlib_stream(&[0, 1, 2, 3], &crate::refpng::Deflater::Stored(10));
+            let cs = vec![crate::refpng::ihdr(3, 1, 8, 0, 0), crate::refpng::RawChunk::new(b"eXIf", r.bytes(len)), crate::refpng::RawChunk::new(b"prVt", r.bytes(len + 1)),
+                crate::refpng::RawChunk::new(b"IDAT", small), crate::refpng::RawChunk::new(b"IEND", vec![])];
+            big.push(corpus::TestFile { bytes: crate::refpng::serialize(&cs), source: "big-chunks".into(), model_domain: false });
+        }
+    }
+    for f in &big {
+        let mut r = rng.fork(f.bytes.len() as u64);
+        let base_s = run_streaming(&f.bytes, &[], &DEFAULT_OPTS);
+        for k in 0..ctx.n(24, 200) {
+            // random schedules with pieces from a few bytes to ~100 KiB
+            let mean = *r.pick(&[3usize, 40, 700, 9000, 33000, 120_000]);
+            let mut cuts = vec![];
+            let mut p = 0usize;
+            loop {
+                p += 1 + r.usize(0, 2 * mean);
+                if p >= f.bytes.len() || cuts.len() > 60_000 {
+                    break;
+                }
+                cuts.push(p);
+            }
+            ctx.rep.eval(true, fnv64(&f.bytes) ^ k as u64);
+            ctx.rep.count("source", &f.source);
+            let s = run_streaming(&f.bytes, &cuts, &DEFAULT_OPTS);
+            if s != base_s {
+                ctx.rep.violation("oracle", "streaming/large-file-differs", &format!("StreamingDecoder results differ between two deliveries of the same bytes: `{}` vs `{}`", trunc(&base_s), trunc(&s)), case_json(&f.bytes[..f.bytes.len().min(400_000)], &[], &cuts[..cuts.len().min(2000)], &DEFAULT_OPTS, "streaming"));
+            }
+            // Reader under small limits: whether a chunk fits the budget must not depend on the delivery
+            for limit in [40_000usize, 100_000] {
+                let a = run_reader_limited(&f.bytes, &[], limit);
+                let b = run_reader_limited(&f.bytes, &cuts, limit);
+                if a != b {
+                    ctx.rep.violation("oracle", "reader/limited-differs", &format!("Reader (Limits {{bytes: {}}}) results differ between two deliveries: `{}` vs `{}`", limit, trunc(&a), trunc(&b)), case_json(&f.bytes[..f.bytes.len().min(400_000)], &[], &cuts[..cuts.len().min(2000)], &DEFAULT_OPTS, "reader-limited"));
+                }
+            }
+        }
+    }
     let every_cut_limit = ctx.n(700, 6000);
     let nrandom = ctx.n(3, 10);
     for (i, f) in files.iter().enumerate() {
